@@ -178,7 +178,8 @@ def tlc_check(wd, name, module, cfg, timeout=600, workers=None, simulate=None, d
     env.setdefault("JAVA_TOOL_OPTIONS", "-Xss512m")
     with open(outp, "w") as f:
         p = subprocess.run(cmd, stdout=f, stderr=subprocess.STDOUT, env=env, cwd=wd)
-    out = open(outp, errors="replace").read()
+    # statistics and errors are outside the (possibly very many) REPLAY lines
+    out = "".join(l for l in open(outp, errors="replace") if not l.startswith('<<"REPLAY"'))
     r = parse_tlc(out)
     r["simulate"] = bool(simulate)
     if simulate and p.returncode == 0:
